@@ -156,7 +156,7 @@ def prepare(need_binary=False):
         if not os.path.exists(os.path.join(COQ, "Makefile")) or \
                 os.path.getmtime(os.path.join(COQ, "Makefile")) < os.path.getmtime(os.path.join(COQ, "_CoqProject")):
             sh("coq_makefile -f _CoqProject -o Makefile", cwd=COQ)
-        rc, out, err, dt = sh("make -k -j16", cwd=COQ, timeout=2400)
+        rc, out, err, dt = sh("make -k -j16 COQC='timeout 900 coqc'", cwd=COQ, timeout=2400)
         prep.coq_log = out + err
         if rc != 0:
             log("coq build: some targets failed (%.0fs)" % dt)
@@ -195,7 +195,7 @@ def check_theorems(prop_file, theorems, allow_axioms=()):
     if bad:
         return False, ["forbidden: " + ", ".join(bad[:5])], ""
     vo = path[:-2] + ".vo"
-    rc, out, err, dt = sh("make %s" % os.path.relpath(vo, COQ), cwd=COQ, timeout=1800)
+    rc, out, err, dt = sh("make COQC='timeout 900 coqc' %s" % os.path.relpath(vo, COQ), cwd=COQ, timeout=1800)
     if rc != 0:
         m = re.search(r'File "([^"]+)", line (\d+).*?\n(Error:.*?)(?:\n\n|\Z)', out + err, re.S)
         where = "%s line %s: %s" % (m.group(1), m.group(2), m.group(3)[:300].replace("\n", " ")) if m else (out + err)[-400:]
@@ -218,7 +218,8 @@ def check_theorems(prop_file, theorems, allow_axioms=()):
     # Print Assumptions output: either closed or only allowlisted axioms
     blocks = re.split(r"\n(?=Closed under the global context|Axioms:)", "\n" + txt)
     n_closed = txt.count(CLOSED)
-    axioms = re.findall(r"^([A-Za-z_][\w.']*)\s*:", "\n".join(b for b in blocks if b.startswith("Axioms:")), re.M)
+    axioms = [a for a in re.findall(r"^([A-Za-z_][\w.']*)\s*(?::|$)", "\n".join(b for b in blocks if b.startswith("Axioms:")), re.M)
+              if a != "Axioms"]
     for a in axioms:
         if a not in allow_axioms:
             ok = False
